@@ -51,3 +51,6 @@ pub use crate::synchronizer::VerifBlockFetcher;
 
 #[cfg(feature = "verif-hooks")]
 pub use crate::types::IBDState;
+
+#[cfg(feature = "verif-hooks")]
+pub use crate::types::HeadersSyncController;
